@@ -703,6 +703,8 @@ func (lb *LoadBalancer) handleRequest(w http.ResponseWriter, r *http.Request, st
 	if backend == nil {
 		logging.WithContext(r.Context()).Warn().Str("path", r.URL.Path).Msg("no healthy backend available")
 		http.Error(w, "No healthy backend servers available", http.StatusServiceUnavailable)
+		// every request is counted in exactly one of successful / failed / rate-limited
+		lb.metricsCollector.RecordResponse(false, time.Since(startTime))
 		return nil
 	}
 
